@@ -1,7 +1,9 @@
 /-
-C03 - property theorems about the output reader model: positions and seeking.
+C03 - property theorems: extended output is one coherent, seekable byte stream.
 -/
-import B3.Model.Rs
+import B3.Proofs.Xof
+import B3.Proofs.GenK
+import B3.Props.C02
 namespace B3.Props.C03
 open B3 B3.Rs
 
@@ -41,5 +43,95 @@ theorem seek_err_iff (r : OutputReader) (sf : SeekFrom) :
 example : (OutputReader.new (Spec.parentNode Spec.IV 0 Spec.IV Spec.IV)).seek (.current (-1)) = none := by
   rw [seek_err_iff]; right
   exact ⟨-1, rfl, by simp [OutputReader.new, OutputReader.position, Spec.parentNode]⟩
+
+/-- **fill = slice.** A reader over node `o` at position `p` that fills `n` bytes returns
+`S[p, p+n)` of `o`'s output stream (block `k` of the stream = the root compression of `o` with
+output counter `k`) and advances to `p + n`; the node is unchanged. No bound on `p`, `n`. -/
+theorem fill_eq_slice (r : OutputReader) (n : Nat) (hb : r.inner.blen ≤ 64) (hp : r.pwb < 64) :
+    (r.fill genK n).1 = r.inner.stream r.position n ∧ (r.fill genK n).2.position = r.position + n := by
+  rw [Proofs.genK_eq_spec]
+  exact ⟨(Proofs.fill_eq_slice r n hb hp).1, (Proofs.fill_eq_slice r n hb hp).2.1⟩
+
+/-- operations on a reader -/
+inductive ROp where
+  | fill (n : Nat)            -- also `Read::read`, which always fills the whole buffer
+  | setPosition (p : Nat)
+  | seek (sf : SeekFrom)
+
+/-- run an operation; output = the bytes produced (empty for seeks) -/
+def rstep (r : OutputReader) : ROp → OutputReader × List UInt8
+  | .fill n => ((r.fill genK n).2, (r.fill genK n).1)
+  | .setPosition p => (r.setPosition p, [])
+  | .seek sf => match r.seek sf with
+    | some (r', _) => (r', [])
+    | none => (r, [])
+
+def WellFormed (o : Spec.Node) (r : OutputReader) : Prop :=
+  r.pwb < 64 ∧ Proofs.SameNode r.inner o ∧ o.blen ≤ 64
+
+theorem rstep_wf (o : Spec.Node) (r : OutputReader) (op : ROp) (h : WellFormed o r) :
+    WellFormed o (rstep r op).1 ∧
+    (∀ n, op = .fill n → (rstep r op).2 = o.stream r.position n ∧ (rstep r op).1.position = r.position + n) := by
+  obtain ⟨h1, h2, h3⟩ := h
+  have hb : r.inner.blen ≤ 64 := by rw [h2.2.2.1]; exact h3
+  cases op with
+  | fill n =>
+    have := Proofs.fill_eq_slice r n hb h1
+    rw [← Proofs.genK_eq_spec] at this
+    refine ⟨⟨this.2.2.1, this.2.2.2.trans h2, h3⟩, ?_⟩
+    intro n' hn; cases hn
+    exact ⟨by rw [← Proofs.stream_congr h2]; exact this.1, this.2.1⟩
+  | setPosition p =>
+    refine ⟨⟨by simp [rstep, OutputReader.setPosition]; omega, ⟨h2.1, h2.2.1, h2.2.2.1, h2.2.2.2⟩, h3⟩, ?_⟩
+    intro n hn; cases hn
+  | seek sf =>
+    refine ⟨?_, by intro n hn; cases hn⟩
+    simp only [rstep]
+    cases hs : r.seek sf with
+    | none => exact ⟨h1, h2, h3⟩
+    | some p =>
+      obtain ⟨r', q⟩ := p
+      have : ∃ x, r' = r.setPosition x := by
+        rw [seek_spec] at hs
+        cases sf with
+        | start x => simp at hs; exact ⟨_, hs.1.symm⟩
+        | current d => simp at hs; exact ⟨_, hs.2.1.symm⟩
+        | «end» x => simp at hs
+      obtain ⟨x, rfl⟩ := this
+      exact ⟨by simp [OutputReader.setPosition]; omega, ⟨h2.1, h2.2.1, h2.2.2.1, h2.2.2.2⟩, h3⟩
+
+/-- **One coherent stream under any history.** Starting from `OutputReader::new(o)`, after any
+sequence of fills (of any sizes), `set_position`s and seeks (successful or failing), the next fill
+of `n` bytes at position `p` returns `o.stream p n`: reads never depend on how earlier reads were
+sized or interleaved with seeking. -/
+theorem reader_history (o : Spec.Node) (hb : o.blen ≤ 64) (ops : List ROp) (n : Nat) :
+    let r := ops.foldl (fun r op => (rstep r op).1) (OutputReader.new o)
+    (r.fill genK n).1 = o.stream r.position n := by
+  have hwf : ∀ (ops : List ROp) (r : OutputReader), WellFormed o r →
+      WellFormed o (ops.foldl (fun r op => (rstep r op).1) r) := by
+    intro ops
+    induction ops with
+    | nil => intro r h; exact h
+    | cons op ops ih => intro r h; exact ih _ (rstep_wf o r op h).1
+  have h0 : WellFormed o (OutputReader.new o) := ⟨by simp [OutputReader.new], ⟨rfl, rfl, rfl, rfl⟩, hb⟩
+  have hw := hwf ops _ h0
+  exact ((rstep_wf o _ (.fill n) hw).2 n rfl).1
+
+/-- the first 32 bytes of the stream are the hash -/
+theorem hash_is_stream_prefix (mode : Spec.Mode) (m : List UInt8) :
+    Spec.hash mode m = (Spec.root mode m).stream 0 32 := by
+  have := Proofs.stream_in_block (Spec.root mode m) 0 0 32 (by omega)
+  simp only [Nat.mul_zero, Nat.add_zero, List.drop_zero] at this
+  rw [this]; rfl
+
+/-- `finalize_xof` after any update history reads the specification's stream of the absorbed bytes -/
+theorem finalize_xof_stream (sd j : Nat) (hsd : sd = 2 ^ j) (ops : List C02.Op) (reg : C02.Reg) (hr : reg ∈ C02.run sd ops)
+    (p n : Nat) :
+    (((OutputReader.new (reg.h.finalOutput genK)).setPosition p).fill genK n).1
+      = (Spec.root reg.mode reg.absorbed).stream p n := by
+  rw [(C02.history_correct sd j hsd ops reg hr).2.1]
+  have hb : (Spec.root reg.mode reg.absorbed).blen ≤ 64 := Proofs.rootNode_blen _ _ _
+  have := reader_history (Spec.root reg.mode reg.absorbed) hb [ROp.setPosition p] n
+  simpa [rstep, set_position_position] using this
 
 end B3.Props.C03
